@@ -133,6 +133,15 @@ Example ex_invalid :
                         WithContextKey (Base op_FF) "k"; Rename "1a" "b"; Template "o" []] = [None; None; None; None; None; None].
 Proof. vm_compute. reflexivity. Qed.
 
+(* both defects are repaired on the current tree (fix commits): hard obligations + unconditional corollaries *)
+Lemma gen_sweep_dedup : sweep_dedup the_flags = true.
+Proof. reflexivity. Qed.
+Lemma gen_probe_mirror : probe_mirror the_flags = true.
+Proof. reflexivity. Qed.
+Definition C16_generated_pass := C16_generated_pass_full gen_sweep_dedup.
+Definition C16_wrapper_mirrors := C16_wrapper_mirrors_full gen_probe_mirror.
+Print Assumptions C16_generated_pass.
+Print Assumptions C16_wrapper_mirrors.
 Print Assumptions C16_generated_pass_full.
 Print Assumptions C16_generated_pass_refuted_when.
 Print Assumptions C16_generated_pass_partial.
